@@ -459,8 +459,9 @@ def check(db, rep):
     evaluator_error_count(db, r6)
     r7 = rep.rule('r7', 'ORDER: Interpreter::Evaluate parses, type-checks, normalises and evaluates in this order, each step guarded by the success of the previous', 1)
     order_rule(db, r7)
-    r8 = rep.rule('r8', 'NORMALISE-SCOPE: eliminating a tuple declaration rewrites every in-scope occurrence of its variables (also a child that is itself a bare variable)', 5)
-    normalise_scope_rule(db, r8, tg)
+    r8 = rep.rule('r8', 'NORMALISE-SCOPE (shared with C01 r10): eliminating tuple and enumerated declarations and inlining term-functions, interpreted from the normaliser source, leaves every variable bound to its own binder - no variable of the evaluated tree is unbound or captured; fresh names come from a counter that is only incremented', 10)
+    from rules import C01
+    C01.normalise_meaning_rule(db, r8)
     fresh_names_rule(db, r8)
     r10 = rep.rule('r10', 'DECL-VARS: the identifier of a declared variable is read only from a child that the tree grammar guarantees to be a declaration', 6)
     note['decl_var_sites'] = decl_vars_rule(db, r10, tg)
